@@ -29,12 +29,19 @@ from .. import explore, imgkit, vterm, world
 ID = "C20"
 LEVEL = "model_checking"
 
+# class name -> bases, in creation order.  "R" is the library style class; "*M" is a plain (non-style) mixin class.
+# A shape may restrict which classes get an instance node (default: all).
 SHAPES = {
     "R": {},
-    "RA": {"A": "R"},
-    "RAB": {"A": "R", "B": "A"},
-    "RA+RB": {"A": "R", "B": "R"},
+    "RA": {"A": ("R",)},
+    "RAB": {"A": ("R",), "B": ("A",)},
+    "RA+RB": {"A": ("R",), "B": ("R",)},
+    "M+RA": {"A": ("*M", "R")},                       # class A(Mixin, Root): mixin first
+    "RA+M": {"A": ("R", "*M")},                       # class A(Root, Mixin): mixin last
+    "RA,M+AB": {"A": ("R",), "B": ("*M", "A")},       # class B(Mixin, A): mixin first, two levels below the root
+    "diamond": {"A": ("R",), "B": ("R",), "D": ("A", "B")},
 }
+SHAPE_INSTANCES = {"diamond": ("D",), "RA,M+AB": ("A", "B")}
 IDENT = dict(kitty="kitty", iterm2="wezterm", block="kitty")
 METHODS = dict(kitty=("lines", "whole"), iterm2=("lines", "whole", "anim"), block=())
 RM_DEFAULT = dict(kitty="lines", iterm2="lines", block=None)
@@ -49,15 +56,29 @@ RAW_ATTRS = ("_render_method", "_forced_support", "_jpeg_quality", "_read_from_f
 class Model:
     def __init__(self, root, shape):
         self.root = root
-        self.parent = {"R": None}
-        self.parent.update(SHAPES[shape])
-        self.classes = list(self.parent)
-        self.instances = ["i" + c for c in self.classes]
-        for c in self.classes:
-            self.parent["i" + c] = c
+        bases = {"R": ()}
+        bases.update(SHAPES[shape])
+        self.classes = list(bases)
+        self.instances = ["i" + c for c in SHAPE_INSTANCES.get(shape, self.classes)]
+        # resolution order = Python's MRO of a shadow hierarchy of plain classes (nothing of the library in it)
+        shadow = {"*M": type("M", (), {})}
+        for c, bs in bases.items():
+            shadow[c] = type(c, tuple(shadow[b] for b in bs), {})
+        names = {v: k for k, v in shadow.items()}
+        self.mro = {c: [names[k] for k in shadow[c].__mro__ if k in names and names[k] != "*M"]
+                    for c in self.classes}
+        self.parent = {c: (self.mro[c][1] if len(self.mro[c]) > 1 else None) for c in self.classes}
+        for i in self.instances:
+            self.parent[i] = i[1:]
         self.ov = dict(rm={}, fs={}, jq={}, rff={})
         self.nab = NAB_DEFAULT
         self.settings = ["rm", "fs"] + (["jq", "rff", "nab"] if root == "iterm2" else [])
+
+    def chain(self, n):
+        """The nodes whose override *n* follows, nearest first: the instance, then its class' MRO."""
+        if n.startswith("i"):
+            return [n] + self.mro[n[1:]]
+        return list(self.mro[n])
 
     def default(self, s):
         return dict(rm=RM_DEFAULT[self.root], fs=False, jq=-1, rff=True)[s]
@@ -67,19 +88,17 @@ class Model:
             return self.nab
         if s == "fs" and n.startswith("i"):
             n = self.parent[n]
-        while n is not None:
-            if n in self.ov[s]:
-                v = self.ov[s][n]
+        for x in self.chain(n):
+            if x in self.ov[s]:
+                v = self.ov[s][x]
                 return v.lower() if s == "rm" else v
-            n = self.parent[n]
         return self.default(s)
 
     def holder(self, s, n):
         """The node whose override *n* follows (None = the default)."""
-        while n is not None:
-            if n in self.ov[s]:
-                return n
-            n = self.parent[n]
+        for x in self.chain(n):
+            if x in self.ov[s]:
+                return x
         return None
 
     def snapshot(self):
@@ -195,11 +214,12 @@ def build(L, prog, file_backed=False, unsupported=False):
     T.root = root
     T.model = Model(root, prog["shape"])
     T.nodes = {"R": Root}
-    for name, par in SHAPES[prog["shape"]].items():
-        T.nodes[name] = type(name, (T.nodes[par],), {})
+    mixin = type("Tagged", (), {})                  # a user mixin that is not a style class
+    for name, bases in SHAPES[prog["shape"]].items():
+        T.nodes[name] = type(name, tuple(mixin if b == "*M" else T.nodes[b] for b in bases), {})
     T.file_backed = file_backed
-    for c in T.model.classes:
-        T.nodes["i" + c] = new_instance(T, c)
+    for i in T.model.instances:
+        T.nodes[i] = new_instance(T, i[1:])
     if unsupported:
         # the terminal turns out not to support the style: same tty, other answers, memos dropped
         cfg = dict(world.IDENTITIES["other"], fg=b"rgb:ffff/ffff/ffff", bg=b"rgb:0000/0000/0000")
@@ -290,16 +310,10 @@ def relation(m, target, wrong):
         return "library-sibling"
     if wrong == target:
         return "self"
-    n = m.parent[wrong]
-    while n is not None:
-        if n == target:
-            return "descendant"
-        n = m.parent[n]
-    n = m.parent[target]
-    while n is not None:
-        if n == wrong:
-            return "ancestor"
-        n = m.parent[n]
+    if target in m.chain(wrong):
+        return "descendant"
+    if wrong in m.chain(target):
+        return "ancestor"
     return "sibling-or-unrelated"
 
 
@@ -319,11 +333,11 @@ def class_unset_cause(m, history, wrong):
             if ok:
                 last[op[1]] = op[0]
     stop = m.holder("rm", wrong)
-    n = wrong
-    while n is not None and n != stop:
+    for n in m.chain(wrong):
+        if n == stop:
+            break
         if not n.startswith("i") and n != "R" and last.get(n) == "rm_unset":
             return True
-        n = m.parent[n]
     return False
 
 
@@ -681,14 +695,14 @@ def background(prog):
     last = m.classes[-1]
     pre = []
     if g != "rm" and root != "block":
-        pre += [("rm_set", last, "whole"), ("rm_set", "iR", "whole")]
+        pre += [("rm_set", last, "whole"), ("rm_set", m.instances[0], "whole")]
     if g != "fs":
         pre += [("fs_set", "R", True)]
     if root == "iterm2":
         if g != "jq":
-            pre += [("jq_set", "R", 50), ("jq_set", "i" + last, 10)]
+            pre += [("jq_set", "R", 50), ("jq_set", m.instances[-1], 10)]
         if g != "rff":
-            pre += [("rff_set", last, False), ("rff_set", "iR", False)]
+            pre += [("rff_set", last, False), ("rff_set", m.instances[0], False)]
         if g != "nab":
             pre += [("nab_set", last, 12345)]
     return tuple(pre)
@@ -706,6 +720,8 @@ def programs(tier):
                     continue
                 if quick and shape == "RA+RB" and g in ("jq", "rff"):
                     continue          # quick tier: sibling classes are explored for rm / fs / nab only
+                if quick and shape == "RA,M+AB":
+                    continue          # quick tier: the mixin shapes directly under the root and the diamond only
                 bg = (not quick) or shape == "RA" or g in ("fs", "nab")
                 progs.append(dict(root=root, shape=shape, group=g, background=bg, kind="bfs"))
     for root in ("kitty", "iterm2"):
@@ -799,7 +815,7 @@ def level_bfs(ctx, progs, phase):
             if impl_snapshot(L, T) != T.model.snapshot():
                 ctx.violation(dict(clause="effective", where="background"),
                               f"{prog['root']}/{prog['shape']}: after the background {list(h)} the snapshot differs "
-                              f"from the reference", case_of(prog, h + (("rm_unset", "iR"),)))
+                              f"from the reference", case_of(prog, h + (("rm_unset", "R"),)))
             key = impl_canon(L, T)
             if key not in prog["_seen"]:
                 prog["_seen"][key] = h
